@@ -27,7 +27,9 @@ func (m *FixPeriodPlanner) Process(ctx *shared.PlannerContext,
 	if _to < _from {
 		return nil, fmt.Errorf("end timestamp must not be before start time")
 	}
-	if (_to-_from)/ctx.Step.Nanoseconds() > 11000 {
+	// _to-_from overflows int64 when start is far in the past (start=NaN or an out-of-range
+	// number becomes the minimal int64): a negative difference of ordered times is an overflow
+	if window := _to - _from; window < 0 || window/ctx.Step.Nanoseconds() > 11000 {
 		return nil, fmt.Errorf("exceeded maximum resolution of 11,000 points per timeseries. " +
 			"Try decreasing the query resolution (?step=XX)")
 	}
